@@ -32,44 +32,44 @@ type job struct {
 }
 
 type runResult struct {
-	Seed      uint64            `json:"seed"`
-	K         uint64            `json:"k"`
-	Profile   string            `json:"profile"`
-	Steps     uint64            `json:"steps"`
-	SimNS     int64             `json:"sim_ns"`
-	WallMS    int64             `json:"wall_ms"`
-	Hash      string            `json:"hash"`
-	Config    runConfig         `json:"config"`
-	Faults    map[string]int    `json:"faults"`
-	Reach     map[string]int    `json:"reach"`
-	Counters  map[string]uint64 `json:"counters"`
-	Violation *violation        `json:"violation,omitempty"`
-	Infra     string            `json:"infra,omitempty"`
-	ReplayAt  string            `json:"replay,omitempty"`
-	TapeLen   [rt.NStreams]int  `json:"tape_len"`
-	Phase     string            `json:"phase"`
-	Nontrivial map[string]bool  `json:"nontrivial"`
-	Digests   int               `json:"digests"`
-	Sample    interface{}       `json:"sample,omitempty"`
-	Incidental []*violation     `json:"incidental,omitempty"`
+	Seed       uint64            `json:"seed"`
+	K          uint64            `json:"k"`
+	Profile    string            `json:"profile"`
+	Steps      uint64            `json:"steps"`
+	SimNS      int64             `json:"sim_ns"`
+	WallMS     int64             `json:"wall_ms"`
+	Hash       string            `json:"hash"`
+	Config     runConfig         `json:"config"`
+	Faults     map[string]int    `json:"faults"`
+	Reach      map[string]int    `json:"reach"`
+	Counters   map[string]uint64 `json:"counters"`
+	Violation  *violation        `json:"violation,omitempty"`
+	Infra      string            `json:"infra,omitempty"`
+	ReplayAt   string            `json:"replay,omitempty"`
+	TapeLen    [rt.NStreams]int  `json:"tape_len"`
+	Phase      string            `json:"phase"`
+	Nontrivial map[string]bool   `json:"nontrivial"`
+	Digests    int               `json:"digests"`
+	Sample     interface{}       `json:"sample,omitempty"`
+	Incidental []*violation      `json:"incidental,omitempty"`
 }
 
 type replayFile struct {
-	Property  string                 `json:"property"`
-	Oracle    string                 `json:"oracle"`
-	Signature string                 `json:"signature"`
-	Message   string                 `json:"message"`
-	Step      uint64                 `json:"step"`
-	Seed      uint64                 `json:"seed"`
-	Profile   string                 `json:"profile"`
-	Scale     int                    `json:"scale"`
-	Target    string                 `json:"target"`
-	Config    runConfig              `json:"config"`
-	Tape      [rt.NStreams][]uint32  `json:"tape"`
-	Tail      []string               `json:"events_tail"`
-	Hash      string                 `json:"schedule_hash"`
-	Shrunk    bool                   `json:"shrunk"`
-	SeedOnly  bool                   `json:"seed_only,omitempty"` // no tape recorded: regenerate the run from the seed
+	Property  string                `json:"property"`
+	Oracle    string                `json:"oracle"`
+	Signature string                `json:"signature"`
+	Message   string                `json:"message"`
+	Step      uint64                `json:"step"`
+	Seed      uint64                `json:"seed"`
+	Profile   string                `json:"profile"`
+	Scale     int                   `json:"scale"`
+	Target    string                `json:"target"`
+	Config    runConfig             `json:"config"`
+	Tape      [rt.NStreams][]uint32 `json:"tape"`
+	Tail      []string              `json:"events_tail"`
+	Hash      string                `json:"schedule_hash"`
+	Shrunk    bool                  `json:"shrunk"`
+	SeedOnly  bool                  `json:"seed_only,omitempty"` // no tape recorded: regenerate the run from the seed
 }
 
 func runOne(seed uint64, prof profile, tape *rt.Tape, jb *job) (res runResult, run *simRun) {
